@@ -80,9 +80,21 @@ class RequireWalker(lua.BaseASTWalker):
             require_token: the lexer.Token for the require() statement, for
                 error messages
         """
-        if (isinstance(node.exp_prefix, parser.VarName) and
+        if not (isinstance(node.exp_prefix, parser.VarName) and
                 node.exp_prefix.name == lexer.TokName(b'require')):
-            arg_exps = node.args.explist.exps if node.args.explist else []
+            # Some other call: its prefix and arguments may contain require()
+            # calls, as in print(require("a")) or require("a").foo().
+            for t in super()._walk_FunctionCall(node):
+                yield t
+        else:
+            if isinstance(node.args, lexer.TokString):
+                # require "name"
+                arg_exps = [parser.ExpValue(node.args)]
+            elif isinstance(node.args, parser.FunctionArgs):
+                arg_exps = (node.args.explist.exps
+                            if node.args.explist else [])
+            else:
+                arg_exps = [node.args]
             if len(arg_exps) < 1 or len(arg_exps) > 2:
                 self._error_at_node('require() has {} args, should have 1 or 2'
                                     .format(len(arg_exps)), node)
